@@ -60,29 +60,32 @@ class CronScenario(Scenario):
     horizon_is_terminal = True
     horizon_steps = 300
 
-    def __init__(self, name, triggers, rounds, crash=None):
+    def __init__(self, name, triggers, rounds, crash=None, rp=False):
         """triggers: dicts name, project, pattern, first (offset s or None),
         count; rounds: list of (processor, start offset s)."""
         self.name = name
         self.triggers = triggers
         self.rounds = [list(r) for r in rounds]
         self.crash = crash
+        self.rp = rp
         self.horizon_clock = max(r[1] for r in rounds) + 5
 
     def spec(self):
         return ('checks.c17', 'CronScenario', dict(
             name=self.name, triggers=self.triggers, rounds=self.rounds,
-            crash=self.crash))
+            crash=self.crash, rp=self.rp))
 
     def describe(self):
         return {'name': self.name, 'triggers': self.triggers,
                 'rounds(processor,start_s)': self.rounds,
-                'crash_of': self.crash}
+                'crash_of': self.crash,
+                'transactions_may_overlap_before_their_first_write': self.rp}
 
     def setup(self):
         _install_stubs()
         env.reset(overrides=[('auth_enable', True, 'pecan')])
         w = env.W
+        w.rp = self.rp
         w.extra['fires'] = []
         w.extra['crashed'] = []
         w.extra['advances'] = []
@@ -292,9 +295,20 @@ def scenarios(tier):
     quick = tier == 'quick'
     S = []
 
-    def add(name, trig, rounds, crash=None, bound=None, secs=60):
-        S.append((CronScenario(name, trig, rounds, crash=crash), bound,
-                  secs if quick else secs * 10, 1))
+    def add(name, trig, rounds, crash=None, bound=None, secs=60, rp=False):
+        S.append((CronScenario(name, trig, rounds, crash=crash, rp=rp),
+                  bound, secs if quick else secs * 10, 1))
+
+    # overlapping transactions (READ COMMITTED): a processor that has only
+    # read so far may be overtaken before its first write
+    for cnt in (None, 1, 2):
+        add('2p-due-c%s-overlap' % cnt, [TR('t1', count=cnt)],
+            [(0, 60), (1, 60), (0, 120)], rp=True,
+            bound=3 if quick else None)
+    add('2p-first-only-overlap', [TR('t1', pattern=None, first=120)],
+        [(0, 120), (1, 120)], rp=True, bound=3 if quick else None)
+    add('3p-due-c1-overlap', [TR('t1', count=1)],
+        [(0, 60), (1, 60), (2, 60)], rp=True, bound=2 if quick else 4)
 
     for cnt in (None, 1, 2):
         c = 'c%s' % cnt
@@ -340,7 +354,10 @@ def main(tier):
         'side of start_workflow is C01',
         'keystone trust calls are stubbed (auth enabled, so that the '
         'project of the start request is observable)',
-        'each DB call of a processor is an atomic step; virtual clock',
+        'each DB call of a processor is an atomic step; in the -overlap '
+        'scenarios a DB call that has only read so far may additionally be '
+        'overtaken by complete calls of other processors before its first '
+        'write (the overlap READ COMMITTED allows); virtual clock',
     ]
     return rep.finish(
         rule='triggers (pattern, first time, count, project) x processor '
